@@ -243,7 +243,7 @@ def make_error_from_parse_error(file_name, parse_error):
                 code=parse_error.code or "Syntax error",
                 text=parse_error.token.text,
                 symbol=parse_error.token.symbol,
-                expected=", ".join(parse_error.expected_tokens),
+                expected=", ".join(sorted(parse_error.expected_tokens)),
             ),
         )
     ]
